@@ -542,6 +542,7 @@ type DrvResult struct {
 	// ReduceAfterScan: number of reductions performed with the offending token as look-ahead
 	ReducesOnOffending int
 	Loop               bool
+	MaxDepth           int    // deepest stack reached
 	Bad                string // table inconsistency (missing goto, bad production)
 	Steps              []string
 }
@@ -574,6 +575,9 @@ func Drive(c *CFG, tab Table, toks []string, trace bool) *DrvResult {
 			return res
 		case 's':
 			stack = append(stack, a.N)
+			if len(stack) > res.MaxDepth {
+				res.MaxDepth = len(stack)
+			}
 			i++
 			redSinceShift = 0
 			if trace {
